@@ -86,6 +86,12 @@ CHECKS = {
   text="Two physical keys carry generated actions on two layers (key, output chord, multi, tap-hold x5 (incl. the -timeout forms), lazy/eager tap-dance, one-shot, fork, switch, unmod, unshift, use-defsrc, transparent, nested up to depth 3); a while-held layer key, an unmod/unshift key or a sequence leader, physical lctl/lalt, optional defoverrides, a chords-v2 chord and v1 chord keys. Repeat events are injected for held keys at arbitrary points (also while a tap-hold is pending and in sequence mode). Safety: each repeat yields at most one output event, a press of a key that is down at the OS. Completeness: when nothing is pending and the layers have not changed since the press, a key holding some of its own outputs down gets a repeat for one of them, a non-modifier in preference to a modifier.",
   note="Completeness is only demanded where attribution is unambiguous (the key's own pool keys that went down since its press). Six defects were repaired with fix: commits (F21, F39-F43); F44 (key pressed during a hidden sequence mode) is a known finding."),
 
+ "C15": dict(
+  cat="exploration", ref="DESIGN.md §4 C15",
+  technique="stateful property-based testing on the real processing thread: proptest-generated histories of file rewrites (valid / broken / rejected / missing / unreadable), reload requests (lrld, -next, -prev, -num; while a key is held; back-to-back) and probes, run through Kanata::start_processing_loop on scratch configuration files with simulated output; a reference model of the active file content, probes answered by a fresh deterministic instance, and the ServerMessage channel as oracles; proptest shrinking",
+  text="After every step the model knows which file content must be running: a failed reload changes nothing and notifies nobody; a successful one (not before the held key's output is released) makes kanata answer every probe exactly like a freshly started instance of the new content and sends ConfigFileReload(file) then LayerChange(first layer); nothing stays down; the processing thread does not panic.",
+  note="Real time: events are sent 8 ms apart and only time-insensitive behaviour is compared. The one-idle-second fallback is not exercised; after a failed relative request the next requests are absolute. Checked by hand that applying the reload while a key is held is detected."),
+
  "C16": dict(
   cat="exploration", ref="DESIGN.md §4 C16",
   technique="metamorphic testing: configurations from the whole-grammar tape generator are rewritten on the harness's own s-expression tree with semantically neutral indirection (defalias, defvar incl. chained / concat / list values, deftemplate + template-expand / t! / if-equal, include, platform, deflayermap) at tape-chosen sites; both texts go through the real parser and state machine; proptest shrinking of the tape",
